@@ -47,6 +47,9 @@ structure Cfg (ρ : Type) where
   nOps : Nat
   route : Bytes → Nat
   keyOf : ρ → List KEv
+  /-- `false` = the code: `batches` is an unbuffered channel, the router blocks in `o.batches <- batch` until the
+  operator goroutine takes the batch. `true` = a one-slot channel (kept only for the negative witness in C04). -/
+  handoffBuffered : Bool := false
 
 /-- the events an element of the read order stands for -/
 def expand1 {ρ : Type} (c : Cfg ρ) : Item ρ → List Ev
@@ -87,6 +90,7 @@ structure OpSt where
   b : Batcher.St Ev
   pc : OPc := .idle
   tokens : List Nat := []           -- timer callbacks blocked sending their token
+  slot : Option (List Ev) := none   -- contents of `batches` if it had a buffer (never used by the code as it is)
   recv : List (List Ev) := []       -- arguments of `HandleEventBatch` so far
 
 structure St (ρ : Type) where
@@ -116,6 +120,7 @@ inductive Act (ρ : Type) where
   | oTok (o : Nat)
   | oTFlush (o : Nat)
   | oDone (o : Nat)
+  | oRecv (o : Nat)     -- only with a buffered hand-off: the operator goroutine takes the queued batch
 deriving Repr
 
 def setOp {ρ : Type} (s : St ρ) (o : Nat) (x : OpSt) : St ρ :=
@@ -155,6 +160,14 @@ def step {ρ : Type} (c : Cfg ρ) (s : St ρ) : Act ρ → Option (St ρ)
       some { setOp s o { s.ops o with b := r.1 } with spc := .handoff o r.2 }
     | _ => none
   | .sSend =>
+    if c.handoffBuffered then
+      match s.spc with
+      | .handoff o batch =>
+        match (s.ops o).slot with
+        | none => some { setOp s o { s.ops o with slot := some batch } with spc := .idle }
+        | some _ => none
+      | _ => none
+    else
     match s.spc with
     | .handoff o batch =>
       match (s.ops o).pc with
@@ -183,6 +196,13 @@ def step {ρ : Type} (c : Cfg ρ) (s : St ρ) : Act ρ → Option (St ρ)
     match (s.ops o).pc with
     | .handling => some (setOp s o { s.ops o with pc := .idle })
     | _ => none
+  | .oRecv o =>
+    if c.handoffBuffered then
+      match (s.ops o).pc, (s.ops o).slot with
+      | .idle, some batch =>
+        some (setOp s o { s.ops o with pc := .handling, slot := none, recv := (s.ops o).recv ++ [batch] })
+      | _, _ => none
+    else none
 
 def exec {ρ : Type} (c : Cfg ρ) : St ρ → List (Act ρ) → Option (St ρ)
   | s, [] => some s
